@@ -28,6 +28,11 @@ class Refuse(Exception):
     pass
 
 
+def _san(t):
+    """a refusal reason inside a Coq comment: no comment brackets, no quotes (a quote starts a string even inside a comment)"""
+    return t.replace("*", "x").replace("(", "[").replace(")", "]").replace('"', "'")
+
+
 class Tr:
     def __init__(self, fn):
         self.fn = fn
@@ -160,7 +165,7 @@ def main():
     for n in FUNCS:
         if n not in defs:
             # refused: fall back to the hand model so that the development still builds; the check reports the refusal
-            text += f"Definition {n} (v : pyval) : bool := Valid.{n} v.   (* REFUSED by the translator: {refused[n][:80]} *)\n\n"
+            text += f"Definition {n} (v : pyval) : bool := Valid.{n} v.   (* REFUSED by the translator: {_san(refused[n][:80])} *)\n\n"
     try:
         old = open(out_path).read()
     except FileNotFoundError:
